@@ -70,13 +70,18 @@ func (vs *VoteSummary) SetPrevotePowers(vals []Validator, prevotes map[string]gc
 
 	var maxHash string
 	var maxPow uint64
-	var bs bitset.BitSet
+	var bs, voted bitset.BitSet
 	for blockHash, proof := range prevotes {
 		proof.SignatureBitSet(&bs)
 		var blockPow uint64
 		for i, ok := bs.NextSet(0); ok && int(i) < len(vals); i, ok = bs.NextSet(i + 1) {
 			valPow := vals[int(i)].Power
-			vs.TotalPrevotePower += valPow
+			if !voted.Test(i) {
+				// A validator who voted for more than one target
+				// still only contributes its power once to the total.
+				voted.Set(i)
+				vs.TotalPrevotePower += valPow
+			}
 			blockPow += valPow
 		}
 
@@ -99,13 +104,18 @@ func (vs *VoteSummary) SetPrecommitPowers(vals []Validator, precommits map[strin
 
 	var maxHash string
 	var maxPow uint64
-	var bs bitset.BitSet
+	var bs, voted bitset.BitSet
 	for blockHash, proof := range precommits {
 		proof.SignatureBitSet(&bs)
 		var blockPow uint64
 		for i, ok := bs.NextSet(0); ok && int(i) < len(vals); i, ok = bs.NextSet(i + 1) {
 			valPow := vals[int(i)].Power
-			vs.TotalPrecommitPower += valPow
+			if !voted.Test(i) {
+				// A validator who voted for more than one target
+				// still only contributes its power once to the total.
+				voted.Set(i)
+				vs.TotalPrecommitPower += valPow
+			}
 			blockPow += valPow
 		}
 
